@@ -46,7 +46,7 @@ EXTREMA = [
     {'pad_width': 2, 'mag_pad_opts': {'mode': 'median', 'stat_length': 3}},
     None,
 ]
-VARIANTS = ['sift', 'mask_sift_zc', 'mask_sift_list', 'ensemble_sift', 'complete_ensemble_sift', 'ensemble_sift_flip',
+VARIANTS = ['sift', 'mask_sift_zc', 'mask_sift_if', 'mask_sift_list', 'ensemble_sift', 'complete_ensemble_sift', 'ensemble_sift_flip',
             'complete_ensemble_sift_flip', 'sift_second_layer']
 # 'get_func_rebound': a partial is taken from the configuration first, then whole option groups are replaced on the same
 # configuration object (conf['imf_opts'] = {...}) and a partial is taken again - it must carry the options now in force
@@ -87,7 +87,7 @@ def call_variant(emd, variant, route, x, imf_opts, envelope_opts, extrema_opts, 
     if variant.startswith('mask_sift'):
         func, name = S.mask_sift, 'mask_sift'
         extra = {'max_imfs': 3, 'nprocesses': nproc, 'nphases': 3,
-                 'mask_freqs': 'zc' if variant.endswith('zc') else [0.3, 0.1, 0.03]}
+                 'mask_freqs': 'zc' if variant.endswith('zc') else 'if' if variant.endswith('_if') else [0.3, 0.1, 0.03]}
     elif variant == 'sift':
         func, name, extra = S.sift, 'sift', {'max_imfs': 3}
     elif variant.startswith('ensemble_sift'):
